@@ -14,6 +14,3 @@ func runBounded(v *Verifier, root, repo, prop, name, tier string, seed int) Boun
 func (v *Verifier) regexObligations(prop string) []*Obligation { return nil }
 func (v *Verifier) lemmaObligations(prop string) []*Obligation { return nil }
 
-func replayOnRealCode(v *Verifier, o *Obligation, prop string, inputs, model map[string]string, repo, root, work string, seed int) *ReplayResult {
-	return nil
-}
